@@ -275,6 +275,50 @@ def sim_handle(orig, self, event):
     return r
 
 
+def sim_next_sched(orig, self, event, scheduler_frequency, last_scheduler_start_time, loop_timeout=None):
+    """log the inputs the next-scheduler-time rule reads, and its answer (C05)"""
+    from operator import attrgetter
+    try:
+        running = self._worker_pools.get_placed_tasks() + [p.task for p in self._future_placement_events.values()]
+        comps = []
+        for t in running:
+            if t.state == TaskState.SCHEDULED:
+                comps.append(us(t.expected_start_time + t.remaining_time))
+            elif t.state == TaskState.RUNNING:
+                comps.append(us(self._simulator_time + t.remaining_time))
+        nrel = self._event_queue.get_next_event_of_type(EventType.TASK_RELEASE)
+        nupd = self._event_queue.get_next_event_of_type(EventType.UPDATE_WORKLOAD)
+        full = bool(self._worker_pools.is_full())
+        pre = {"now": us(event.time), "freq": us(scheduler_frequency), "last": us(last_scheduler_start_time),
+               "timeout": us(loop_timeout), "delay": us(self._scheduler_delay), "worker_free": bool(self._run_scheduler_at_worker_free),
+               "min_completion": min(comps) if comps else None, "n_running": len(running),
+               "next_release": us(nrel.time) if nrel is not None else None,
+               "next_update": us(nupd.time) if nupd is not None else None, "queue_empty": self._event_queue.peek() is None,
+               "full": full}
+    except Exception as e:          # observation must never change the run
+        pre = {"error": "%s: %s" % (type(e).__name__, e)}
+    mark = len(LOG)
+    r = orig(self, event, scheduler_frequency, last_scheduler_start_time, loop_timeout)
+    offers = [x for x in LOG[mark:] if x[0] == "offer"]
+    if offers and "error" not in pre:
+        fr = offers[-1][6]
+        pre["n_sched"] = len(fr)
+        pre["all_running_or_scheduled"] = all(st in ("RUNNING", "SCHEDULED") for _, st in fr)
+        # the compatibility clause of the rule, re-evaluated on the same state
+        try:
+            byname = {un(t): t for tg in self._workload.task_graphs.values() for t in tg.get_nodes()}
+            tasks = [byname[n] for n, _ in fr]
+            pre["no_compatible"] = all(
+                len(worker.get_compatible_strategies(t.available_execution_strategies)) == 0
+                for t in tasks for pool in self._worker_pools.worker_pools for worker in pool.workers
+                if worker.is_available(t.profile) == EventTime.zero())
+        except Exception as e:
+            pre["error"] = "%s: %s" % (type(e).__name__, e)
+    LOG.append(["nextsched", pre, r.event_type.name, us(r.time)])
+    return r
+
+
+wrap(Simulator, "_Simulator__get_next_scheduler_event", sim_next_sched)
 wrap(Simulator, "_Simulator__step", sim_step)
 wrap(Simulator, "_Simulator__handle_event", sim_handle)
 
